@@ -56,7 +56,8 @@ negotiated channels are set Open and get an `Open` event; in-band ones in state 
 their DCEP OPEN (re)sent -/
 def openChannels (pl : Pl) : Pl :=
   let chans := pl.chans.map (fun c => if c.negotiated then openOnce c else c)
-  let acts := pl.acts ++ (pl.chans.filter (fun c => !c.negotiated && c.state == 0)).map (fun c => Act.dcepOpen c.id)
+  -- `send_dcep_open` refuses a label / protocol that does not fit DCEP's 16-bit lengths
+  let acts := pl.acts ++ (pl.chans.filter (fun c => !c.negotiated && c.state == 0 && c.label.length ≤ 65535 && c.protocol.length ≤ 65535)).map (fun c => Act.dcepOpen c.id)
   { pl with chans := chans, acts := acts }
 
 /-- State Cookie parameter (type 7) of an INIT-ACK value, as `handle_init_ack` finds it (last one wins) -/
@@ -191,7 +192,7 @@ def handleChunk (e : Ep) (c : RawChunk) : Ep × Bool :=
     | _ => (e, true)
   else if ty == ctReconfig then (handleReconfig c.value.length e c.value, true)
   else if ty == ctAbort then ({ e with state := .closed }, true)
-  else if ty == ctShutdownAck then ({ e with state := .closed }, true)
+  else if ty == ctShutdownAck || ty == ctShutdownComplete then ({ e with state := .closed }, true)
   else (e, true)
 
 def handleChunks : Ep → List RawChunk → Ep
@@ -206,25 +207,52 @@ def handlePacket (e : Ep) (p : Bytes) : Ep :=
   | none => e
   | some pk => handleChunks e pk.chunks
 
+/-- `state.swap(Closed) != Closed → send_event(Close)` -/
+def swapClosed (c : Chan) : Chan := if c.state != 3 then ({ c with state := 3 }.emit .close) else c
+
 /-- `SctpCleanupGuard::drop`: every channel not already Closed is closed and gets `Close` -/
 def cleanup (e : Ep) : Ep :=
-  let chans := e.rx.pl.chans.map (fun c => if c.state != 3 then ({ c with state := 3 }.emit .close) else c)
+  let chans := e.rx.pl.chans.map swapClosed
   { e with state := .closed, cleaned := true, rx := { e.rx with pl := { e.rx.pl with chans := chans } } }
 
-/-- `close_data_channel(id)` called by the application: Closing → RE-CONFIG SSN reset sent →
-inbound stream state dropped → Closed, `Close` announced (unconditionally) -/
+/-- `close_data_channel(id)` called by the application: a channel that is already Closed is left
+alone (nothing is sent); otherwise Closing → RE-CONFIG SSN reset sent → inbound stream state
+dropped → Closed, with `Close` announced iff the channel was not Closed meanwhile -/
 def closeDataChannel (e : Ep) (id : UInt16) : Ep :=
   let pl := e.rx.pl
-  let chans := match findChan pl.chans id with
-    | some dc => setChan pl.chans ({ dc with state := 3 }.emit .close)
-    | none => pl.chans
-  { e with rx := { e.rx with pl := { pl with chans := chans, streams := removeStream pl.streams id } } }
+  match findChan pl.chans id with
+  | some dc =>
+    if dc.state == 3 then e
+    else
+      let chans := setChan pl.chans ({ dc with state := 3 }.emit .close)
+      { e with rx := { e.rx with pl := { pl with chans := chans, streams := removeStream pl.streams id } } }
+  | none => { e with rx := { e.rx with pl := { pl with streams := removeStream pl.streams id } } }
+
+/-- the atomic steps by which the three `Close` emitters touch one channel's state, for reasoning
+about their interleavings: `close_data_channel` is two steps (Closed? stop : Closing — then, after
+the RE-CONFIG was sent, swap to Closed), the association's cleanup guard and
+`PeerConnection::close` are one swap each -/
+inductive CloseStep where
+  | cdcBegin | cdcEnd | guard | pcClose
+deriving DecidableEq, Repr
+
+def closeStep (c : Chan) : CloseStep → Chan
+  | .cdcBegin => if c.state == 3 then c else { c with state := 2 }
+  | .cdcEnd => swapClosed c
+  | .guard => swapClosed c
+  | .pcClose => swapClosed c
 
 /-- top of a run-loop iteration: leave (and tear down) when Closed, else flush the delayed SACK -/
 def loopTop (e : Ep) : Ep :=
   if e.cleaned then e
   else if e.state == .closed then cleanup e
   else { e with rx := flushSackDelay e.rx }
+
+/-- `SctpTransport::close()`: the state is set to Closed and the run loop is told to leave -/
+def localClose (e : Ep) : Ep := { e with state := .closed }
+
+/-- end of the observation: a run loop that found the state Closed has left and its guard has run -/
+def finishEp (e : Ep) : Ep := if e.state == .closed && !e.cleaned then cleanup e else e
 
 /-- the endpoint observed one of its own packets going out: remember the choices it made -/
 def noteTx (e : Ep) (p : Bytes) : Ep :=
